@@ -107,7 +107,7 @@ def run(ctx):
     codec_run.xml_corr(ctx, cases, ctx.n(40, 400), doc_order=True)
     # the Gallina validator vs lxml: written documents + perturbed variants (V), leaf texts (S)
     if os.path.exists(os.path.join(c03_xsd.GEN, "Xsd2020a.v")) and not any("translator" in b["theorem"] for b in ctx.proof_breaks):
-        c03_corr.doc_cases(ctx, cases, ctx.n(24, 200), ctx.n(8, 12))
+        c03_corr.doc_cases(ctx, cases, ctx.n(20, 200), ctx.n(7, 12))
         c03_corr.leaf_cases(ctx, ctx.n(2500, 40000))
         c03_corr.expr_cases(ctx, cases, ctx.n(40, 400))
         ctx.coverage["correspondence_cases"] = ctx.coverage.get("correspondence_cases", 0) + \
